@@ -247,3 +247,11 @@ Definition run_carc (params : list Z) (rows : list (list Z)) : list (list Z) :=
   | Some ops => arun init ops
   | None => [[-2]%Z]
   end.
+
+(* ---- what ONE thread observes while other threads change the counts (case id 110) ------------------------------
+   every thread runs the same history on a pool of its own over SHARED allocations; the result rows and the kinds of
+   its handles do not depend on the counts (proofs/ArcProofs.v: thread_view), so they are those of the sequential run *)
+Fixpoint kinds_of (o : list Z) : list Z := match o with k :: _ :: _ :: rest => k :: kinds_of rest | _ => [] end.
+Fixpoint proj_thread (rows : list (list Z)) : list (list Z) :=
+  match rows with r :: _ :: o :: rest => r :: kinds_of o :: proj_thread rest | other => other end.
+Definition run_carc_threads (params : list Z) (rows : list (list Z)) : list (list Z) := proj_thread (run_carc [] rows).
